@@ -1,97 +1,126 @@
 """C16 -- connection lifecycle: one active thread, clean refusal, always
-reusable.  Who-may-construct, guard-function equality, dominance, definite
-assignment and exceptional-exit analysis of the lifecycle methods."""
+reusable.  Decided on path summaries (vp.pathsum) of the lifecycle methods:
+under which decisions a thread is started or a call refused, what happens
+before the activity check, which effects every exit of disconnect() and of
+the thread wrapper has; plus who-may-construct (call graph) and definite
+assignment of what disconnect() reads."""
 import ast
 
 from ..common import AnalysisError, rel
 from ..callgraph import CallGraph
 from ..connmodel import ConnModel, CONN
 from ..cfg import cfg_of
-from .. import boolfn
+from .. import boolfn, pathsum
+from ..pathsum import struct, show, is_const
 
 
 def run(report, db, tier):
     report.explanation = (
-        'Lifecycle guarantees are decided as path facts of the lifecycle '
-        'methods: where threads may be constructed and under which guard, '
-        'that the activity check dominates every state change, that every '
-        'attribute disconnect() reads exists from __init__ on, that socket '
-        'and file object are published together, and that teardown runs on '
-        'every exit of disconnect().')
+        'Lifecycle guarantees are decided as facts about every path of the '
+        'lifecycle methods (vp.pathsum: effects in order, decisions in '
+        'normal form, locks held, outcome; helpers extracted by later edits '
+        'inlined): a thread is started only on paths whose decisions say the '
+        'connection is idle and refused exactly when it is active; nothing '
+        'is changed before the activity check; a successor joins a live '
+        'predecessor and promotes itself under the lock; every attribute '
+        'disconnect() reads exists from __init__ on; socket and file object '
+        'are published together; every exit of disconnect() has interrupted '
+        'the newest thread and closed the transport.')
     cg = CallGraph(db)
     M = ConnModel(db, cg)
-    r1(report, db, cg, M)
-    r2(report, db, cg, M)
+    S = pathsum.PathSum(db, cg, inline_pred=pathsum.known_unit_pred())
+    r1(report, db, cg, M, S)
+    r2(report, db, cg, M, S)
     r3(report, db, cg, M)
-    r4(report, db, cg, M)
-    r5(report, db, cg, M)
-    r6(report, db, cg, M)
+    r4(report, db, cg, M, S)
+    r5(report, db, cg, M, S)
+    r6(report, db, cg, M, S)
 
 
-def conj(conds):
-    """ast expression for a conjunction of (expr, truth) pairs."""
-    parts = []
-    for e, t in conds:
-        parts.append(e if t else ast.UnaryOp(op=ast.Not(), operand=e))
-    if not parts:
-        return ast.Constant(value=True)
-    if len(parts) == 1:
-        return parts[0]
-    return ast.BoolOp(op=ast.And(), values=parts)
+def sy(n):
+    return ('sym', n)
 
 
-def disj(exprs):
-    if not exprs:
-        return ast.Constant(value=False)
-    if len(exprs) == 1:
-        return exprs[0]
-    return ast.BoolOp(op=ast.Or(), values=exprs)
+def at(base, *names):
+    for n in names:
+        base = ('attr', base, n)
+    return base
 
 
-def raise_condition(g, exc_name):
-    nodes = [n for n in g.reachable_nodes() if isinstance(n.ast, ast.Raise)
-             and n.ast.exc is not None and exc_name in ast.unparse(n.ast.exc)]
-    return nodes, disj([conj(boolfn.path_conditions(g, n)) for n in nodes])
+# three-valued logic over what a path has decided
+def t_not(a):
+    return None if a is None else not a
 
 
-def decided_walk(g, env, start=None, follow_exc=False):
-    """Nodes reachable from entry when tests whose atoms are all fixed by
-    `env` (atom text -> bool) take only the decided edge."""
-    seen = set()
-    stack = [start or g.entry]
-    while stack:
-        n = stack.pop()
-        if n in seen:
-            continue
-        seen.add(n)
-        decided = None
-        if n.kind == 'test':
-            ats = boolfn.atoms(n.ast)
-            if ats and all(a in env for a in ats):
-                decided = boolfn.evaluate(n.ast, env)
-        for s, l in n.succ:
-            if l == 'exc' and not follow_exc:
-                continue
-            if decided is not None and l in ('true', 'false') and \
-                    (l == 'true') != decided:
-                continue
-            stack.append(s)
-    return seen
+def t_and(a, b):
+    if a is False or b is False:
+        return False
+    if a is None or b is None:
+        return None
+    return True
+
+
+def t_or(a, b):
+    if a is True or b is True:
+        return True
+    if a is None or b is None:
+        return None
+    return False
+
+
+def none_fact(conds, place):
+    """True/False/None: is `place` None according to the decisions?"""
+    for a, pol, _ in conds:
+        if a[1] == 'is' and struct(a[2][0]) == place and \
+                a[2][1] == ('const', None):
+            return pol
+        if a[1] == 'truth' and struct(a[2][0]) == place:
+            return not pol
+    return None
+
+
+def truth_fact(conds, place):
+    for a, pol, _ in conds:
+        if a[1] == 'truth' and struct(a[2][0]) == place:
+            return pol
+    return None
+
+
+def active(conds, conn):
+    """The connection is active: the current thread exists and is not
+    interrupted, or a successor exists (three-valued)."""
+    nt, nnt = at(conn, 'networking_thread'), at(conn, 'new_networking_thread')
+    cur = t_and(t_not(none_fact(conds, nt)),
+                t_not(truth_fact(conds, at(nt, 'interrupt'))))
+    return t_or(cur, t_not(none_fact(conds, nnt)))
+
+
+def raises_class(p, name):
+    if not p.raises or len(p.outcome) != 3:
+        return False
+    v = p.outcome[1]
+    return v[0] == 'obj' and v[2].split('.')[-1] == name
+
+
+def lock_held(held, conn, M):
+    return any(struct(h) == at(conn, M.lock_attr) for h in held)
 
 
 # ---------------------------------------------------------------------------
-def r1(report, db, cg, M):
+def r1(report, db, cg, M, S):
     R = report.rule('R16.1', 'threads are constructed and started only in '
-                    '_start_network_thread, under the lock, on valid-state '
-                    'paths; its refusal condition is the same boolean '
-                    'function as _check_connection\'s')
+                    '_start_network_thread, under the lock, on paths whose '
+                    'decisions say the connection is idle; it refuses '
+                    'exactly when the connection is active')
     snt = M.conn_method('_start_network_thread')
-    chk = M.conn_method('_check_connection')
     tinit = M.method(M.thread, '__init__')
+    inlined = set((db.norm_stats or {}).get('helpers', ()))
     sites = cg.callers_of(tinit)
     sites = [cs for cs in sites if not (isinstance(cs.node.func,
                                                    ast.Attribute)
-                                        and cs.node.func.attr == '__init__')]
+                                        and cs.node.func.attr == '__init__')
+             and '%s:%s' % (cs.caller.module.name, cs.caller.qualname)
+             not in inlined]
     report.floor('NetworkingThread construction sites', len(sites), 2)
     for cs in sites:
         if cs.caller is not snt:
@@ -100,16 +129,13 @@ def r1(report, db, cg, M):
                              'a networking thread is created outside '
                              '_start_network_thread (no activity check, no '
                              'hand-over)')
-        elif not M.site_in_lock(snt, cs.node):
-            report.violation(R, 'thread-ctor:unlocked', snt.path, cs.node,
-                             snt.qualname, 'thread created outside the '
-                             'write lock')
         else:
             report.ok(R, 'thread constructed in _start_network_thread '
-                      'under the lock (line %d)' % cs.node.lineno)
-    # .start() on a NetworkingThread
+                      '(line %d)' % cs.node.lineno)
     n = 0
     for fi, lst in cg.sites.items():
+        if '%s:%s' % (fi.module.name, fi.qualname) in inlined:
+            continue
         for cs in lst:
             f = cs.node.func
             if isinstance(f, ast.Attribute) and f.attr == 'start' and any(
@@ -124,60 +150,133 @@ def r1(report, db, cg, M):
                 else:
                     report.ok(R)
     report.floor('thread start sites', n, 2)
-    g1, g2 = cfg_of(snt), cfg_of(chk)
-    n1, c1 = raise_condition(g1, 'InvalidState')
-    n2, c2 = raise_condition(g2, 'InvalidState')
-    if not n1 or not n2:
-        which = snt if not n1 else chk
-        report.violation(R, 'refusal:missing:%s' % which.name, which.path,
-                         which.node, which.qualname, 'never raises '
+    me = sy(snt.params[0])
+    started = refused = 0
+    for p in S.run(snt):
+        starts = [e for e in p.calls() if e.method() == 'start' and (
+            e.fn[0] == 'attr' and e.fn[1][0] == 'obj' and e.fn[1][3]
+            is M.thread or e.fn[0] == 'fn' and e.fn[2] is not None
+            and e.fn[2][0] == 'obj' and e.fn[2][3] is M.thread)]
+        a = active(p.conds, me)
+        if raises_class(p, 'InvalidState'):
+            refused += 1
+            if a is not True:
+                report.violation(R, 'refusal:differs', snt.path,
+                                 p.outcome[2], snt.qualname,
+                                 '_start_network_thread refuses when [%s], '
+                                 'which is not "the current thread is '
+                                 'running or a successor exists"'
+                                 % p.cond_text())
+            if starts:
+                report.violation(R, 'thread-ctor:invalid-state', snt.path,
+                                 starts[0].node, snt.qualname, 'a thread is '
+                                 'started on a path that then refuses')
+            continue
+        if p.raises:
+            continue
+        if not starts:
+            report.violation(R, 'thread-start:missing', snt.path, snt.node,
+                             snt.qualname, 'no thread is started when [%s]'
+                             % p.cond_text())
+            continue
+        started += 1
+        for e in starts:
+            if not lock_held(e.held, me, M):
+                report.violation(R, 'thread-ctor:unlocked', snt.path, e.node,
+                                 snt.qualname, 'thread started outside the '
+                                 'write lock')
+            if a is not False:
+                report.violation(R, 'thread-ctor:invalid-state', snt.path,
+                                 e.node, snt.qualname, 'a thread can be '
+                                 'created while a connection is active '
+                                 '(decisions on the path: [%s])'
+                                 % p.cond_text())
+        if a is False and all(lock_held(e.held, me, M) for e in starts):
+            report.ok(R, 'start under the lock when [%s]' % p.cond_text())
+    if not refused:
+        report.violation(R, 'refusal:missing:_start_network_thread',
+                         snt.path, snt.node, snt.qualname, 'never raises '
                          'InvalidState: an active connection is not '
                          'protected')
-        return
-    if boolfn.same_function(c1, c2):
-        report.ok(R, 'refusal condition of both: %s' % ast.unparse(c2)[:120])
-    else:
-        report.violation(R, 'refusal:differs', snt.path, n1[0].ast,
-                         snt.qualname, '_start_network_thread refuses when '
-                         '[%s] but _check_connection when [%s]'
-                         % (ast.unparse(c1), ast.unparse(c2)))
-    for cs in sites:
-        if cs.caller is not snt:
-            continue
-        for node in M.cfg_nodes_of(snt, cs.node):
-            conds = boolfn.path_conditions(g1, node)
-            w = boolfn.conj_satisfiable(conds + [(c2, True)])
-            if w is None:
-                report.ok(R, 'construction at line %d unreachable in an '
-                          'invalid state' % node.lineno)
-            else:
-                report.violation(R, 'thread-ctor:invalid-state', snt.path,
-                                 cs.node, snt.qualname, 'a thread can be '
-                                 'created while a connection is active '
-                                 '(e.g. %s)' % ', '.join(
-                                     '%s=%s' % kv for kv in sorted(w.items())))
+    if not started:
+        raise AnalysisError('_start_network_thread: no path starts a '
+                            'thread', snt.node, rel(snt.path))
 
 
 # ---------------------------------------------------------------------------
-def r2(report, db, cg, M):
+def r2(report, db, cg, M, S):
     R = report.rule('R16.2', 'hand-over: a successor joins its predecessor '
-                    'before running, and promotes itself under the lock')
+                    'before running, and promotes itself under the lock; '
+                    'the slot is cleared on every exit of run()')
     run = M.method(M.thread, 'run')
-    g = cfg_of(run)
-    live = g.reachable_nodes()
-
-    def call_named(n, attr, recv_attr=None):
-        for c in n.calls():
-            f = c.func
-            if isinstance(f, ast.Attribute) and f.attr == attr:
-                if recv_attr is None or (isinstance(f.value, ast.Attribute)
-                                         and f.value.attr == recv_attr):
-                    return True
-        return False
-    joins = [n for n in live if n.ast is not None
-             and call_named(n, 'join', 'previous_thread')]
-    runs = [n for n in live if n.ast is not None and call_named(n, '_run')]
-    if not runs:
+    me = sy(run.params[0])
+    conn = at(me, 'connection')
+    prev = at(me, 'previous_thread')
+    _run = M.method(M.thread, '_run')
+    paths = S.run(run)
+    joins = skipped = unguarded = 0
+    promo_bad = None
+    promoted = 0
+    uncleared = None
+    for p in paths:
+        evs = p.flat()
+        ri = [i for i, e in enumerate(evs) if e.calls(_run)]
+        # slot cleared on every exit
+        clr = [i for i, e in enumerate(evs) if e.kind == 'store'
+               and struct(e.base) == conn and e.attr == 'networking_thread'
+               and e.value == ('const', None)
+               and lock_held(e.held, conn, M)]
+        last = [i for i, e in enumerate(evs) if e.kind == 'store'
+                and struct(e.base) == conn
+                and e.attr == 'networking_thread']
+        if not clr or (last and last[-1] != clr[-1]) or (
+                ri and clr[-1] < ri[-1]):
+            uncleared = p
+        if not ri:
+            continue
+        r0 = ri[0]
+        before = evs[:r0]
+        has_prev = t_not(none_fact(p.conds, prev))
+        alive = None
+        for a, pol, _ in p.conds:
+            if a[1] == 'truth' and a[2][0][0] == 'call' and \
+                    a[2][0][1][0] == 'attr' and a[2][0][1][2] == 'is_alive' \
+                    and struct(a[2][0][1][1]) == prev:
+                alive = pol
+        joined = any(e.kind == 'call' and e.fn[0] == 'attr'
+                     and e.fn[2] == 'join' and struct(e.fn[1]) == prev
+                     for e in before)
+        if joined:
+            joins += 1
+        if has_prev is None:
+            unguarded += 1
+        elif has_prev and alive is not False and not joined:
+            skipped += 1
+        if has_prev:
+            st = [e for e in before if e.kind == 'store'
+                  and struct(e.base) == conn]
+            cur = [e for e in st if e.attr == 'networking_thread'
+                   and struct(e.value) == me]
+            new = [e for e in st if e.attr == 'new_networking_thread'
+                   and e.value == ('const', None)]
+            late = [e for e in evs[r0:] if e.kind == 'store'
+                    and struct(e.base) == conn
+                    and (e.attr == 'networking_thread'
+                         and struct(e.value) == me
+                         or e.attr == 'new_networking_thread')]
+            if late:
+                promo_bad = ('handover:promotion-late', late[0],
+                             'slot promotion happens after _run()')
+            elif not cur or not new:
+                promo_bad = ('handover:no-promotion', None,
+                             'a successor never takes over the current-'
+                             'thread slot / clears the successor slot')
+            elif not all(lock_held(e.held, conn, M) for e in cur + new):
+                promo_bad = ('handover:promotion-unlocked', cur[0],
+                             'slot promotion outside the write lock')
+            else:
+                promoted += 1
+    if not any(e.calls(_run) for p in paths for e in p.calls()):
         raise AnalysisError('NetworkingThread.run does not call _run',
                             run.node, rel(run.path))
     if not joins:
@@ -185,154 +284,137 @@ def r2(report, db, cg, M):
                          run.qualname, 'a successor thread never waits for '
                          'its predecessor: two threads would do I/O on one '
                          'connection')
+    elif unguarded:
+        report.violation(R, 'handover:no-guard', run.path, run.node,
+                         run.qualname, 'the hand-over is not guarded by '
+                         'the presence of a predecessor')
+    elif skipped:
+        report.violation(R, 'handover:join-skipped', run.path, run.node,
+                         run.qualname, '_run() is reachable with a live '
+                         'predecessor that was not joined')
     else:
-        # a path entry -> _run on which previous_thread is set and alive but
-        # not joined: forbid the edges that say "no predecessor" / "dead"
-        def edge_ok(n, l):
-            if n.kind == 'test':
-                t = ast.unparse(n.ast)
-                if 'previous_thread is not None' in t and l == 'false':
-                    return False
-                if 'previous_thread is None' in t and l == 'true':
-                    return False
-                if 'is_alive' in t and 'previous_thread' in t and \
-                        l == 'false':
-                    return False
-            return True
-        seen = set()
-        stack = [g.entry]
-        bad = False
-        while stack:
-            n = stack.pop()
-            if n in seen or n in joins:
-                continue
-            seen.add(n)
-            if n in runs:
-                bad = True
-                break
-            for s, l in n.succ:
-                if l != 'exc' and edge_ok(n, l):
-                    stack.append(s)
-        # the walk above must have met a guard at all
-        guards = [n for n in live if n.kind == 'test'
-                  and 'previous_thread' in ast.unparse(n.ast)]
-        if bad and guards:
-            report.violation(R, 'handover:join-skipped', run.path,
-                             runs[0].ast, run.qualname, '_run() is '
-                             'reachable with a live predecessor that was '
-                             'not joined')
-        elif not guards:
-            report.violation(R, 'handover:no-guard', run.path, run.node,
-                             run.qualname, 'the hand-over is not guarded by '
-                             'the presence of a predecessor')
-        else:
-            report.ok(R, 'join() precedes _run() whenever a live '
-                      'predecessor exists')
-    # slot promotion
-    prom = []
-    for n in live:
-        a = n.ast
-        if isinstance(a, ast.Assign):
-            for t in a.targets:
-                if isinstance(t, ast.Attribute) and t.attr in (
-                        'networking_thread', 'new_networking_thread') and \
-                        M.is_conn_expr(run, t.value):
-                    prom.append((n, t.attr, a.value))
-    cur = [p for p in prom if p[1] == 'networking_thread'
-           and isinstance(p[2], ast.Name) and p[2].id == run.params[0]]
-    newn = [p for p in prom if p[1] == 'new_networking_thread'
-            and isinstance(p[2], ast.Constant) and p[2].value is None]
-    if cur and newn:
-        okk = True
-        for n, _, _ in cur + newn:
-            if not M.node_in_lock(run, n):
-                okk = False
-                report.violation(R, 'handover:promotion-unlocked', run.path,
-                                 n.ast, run.qualname, 'slot promotion '
-                                 'outside the write lock')
-            if any(g.exists_path(r, lambda x: x is n) for r in runs):
-                okk = False
-                report.violation(R, 'handover:promotion-late', run.path,
-                                 n.ast, run.qualname, 'slot promotion '
-                                 'happens after _run()')
-        if okk:
-            report.ok(R, 'networking_thread = self; new_networking_thread = '
-                      'None under the lock before _run()')
+        report.ok(R, 'join() precedes _run() whenever a live predecessor '
+                  'exists')
+    if promo_bad:
+        report.violation(R, promo_bad[0], run.path,
+                         promo_bad[1].node if promo_bad[1] else run.node,
+                         run.qualname, promo_bad[2])
+    elif promoted:
+        report.ok(R, 'networking_thread = self; new_networking_thread = '
+                  'None under the lock before _run()')
     else:
         report.violation(R, 'handover:no-promotion', run.path, run.node,
                          run.qualname, 'a successor never takes over the '
                          'current-thread slot / clears the successor slot')
-    # finally: clears the slot under the lock
-    clr = [p for p in prom if p[1] == 'networking_thread'
-           and isinstance(p[2], ast.Constant) and p[2].value is None]
-    if clr and all(M.node_in_lock(run, n) for n, _, _ in clr) and all(
-            g.postdominates(n, g.entry) or True for n, _, _ in clr):
-        # every exit (normal and exceptional) passes a clearing store
-        esc = g.exists_path(g.entry, lambda x: x in (g.exit, g.raise_exit),
-                            avoid=lambda x: any(x is n for n, _, _ in clr))
-        if esc is None:
-            report.ok(R, 'slot cleared on every exit of run()')
-        else:
-            report.violation(R, 'handover:slot-not-cleared', run.path,
-                             run.node, run.qualname, 'run() can end without '
-                             'clearing the thread slot: the connection '
-                             'stays "active" forever')
+    if uncleared is None:
+        report.ok(R, 'slot cleared under the lock on every exit of run()')
     else:
         report.violation(R, 'handover:slot-not-cleared', run.path, run.node,
-                         run.qualname, 'run() does not clear the thread '
-                         'slot under the lock when it ends')
+                         run.qualname, 'run() can end without clearing the '
+                         'thread slot under the lock (path [%s] -> %s): the '
+                         'connection stays "active" forever'
+                         % (uncleared.cond_text(), uncleared.outcome[0]))
 
 
 # ---------------------------------------------------------------------------
 def r3(report, db, cg, M):
     R = report.rule('R16.3', 'check before change: in connect() and '
-                    'status() the activity check dominates every state '
-                    'change and the transport set-up, inside the lock')
-    chk = M.conn_method('_check_connection')
+                    'status() nothing is changed and no transport is set up '
+                    'before the decisions of the activity check are taken, '
+                    'inside the lock; an active connection is refused')
+    chk = db.own_method(M.conn, '_check_connection')
+    known = pathsum.known_unit_pred()
+    S = pathsum.PathSum(db, cg, inline=[chk] if chk else [],
+                        inline_pred=known)
     for name in ('connect', 'status'):
         fi = M.conn_method(name)
-        g = cfg_of(fi)
-        live = g.reachable_nodes()
-        checks = [n for n in live if n.ast is not None and any(
-            any(m is chk for m, _, _ in cg.callee_funcs(fi, c))
-            for c in n.calls())]
-        if not checks:
-            report.violation(R, 'check:missing:%s' % name, fi.path, fi.node,
-                             fi.qualname, '%s() never checks for an '
-                             'existing connection' % name)
-            continue
-        c0 = checks[0]
-        if not M.node_in_lock(fi, c0):
-            report.violation(R, 'check:unlocked:%s' % name, fi.path, c0.ast,
-                             fi.qualname, 'the activity check runs outside '
-                             'the write lock: another thread can connect in '
-                             'between')
-        bad = []
-        for n in live:
-            if n.ast is None or n is c0:
-                continue
-            changes = False
-            a = n.ast
-            if isinstance(a, (ast.Assign, ast.AugAssign)):
-                tg = a.targets if isinstance(a, ast.Assign) else [a.target]
-                if any(isinstance(t, ast.Attribute) for t in tg):
-                    changes = True
-            for c in n.calls():
-                for m, _, _ in cg.callee_funcs(fi, c):
-                    if m.cls is M.conn and m is not chk:
-                        changes = True
-            if changes and not g.dominates(c0, n):
-                bad.append(n)
-        if bad:
-            for n in bad[:3]:
-                report.violation(R, 'check:late:%s:%d' % (name, n.lineno),
-                                 fi.path, n.ast, fi.qualname,
+        me = sy(fi.params[0])
+        paths = S.run(fi)
+        refused = proceeded = 0
+        prob = []
+        for p in paths:
+            if raises_class(p, 'InvalidState'):
+                refused += 1
+                if active(p.conds, me) is not True:
+                    prob.append(('check:refuses-idle:%s' % name, None,
+                                 '%s() refuses when [%s]' % (
+                                     name, p.cond_text())))
+                changed = [e for e in p.flat(('store', 'call'))
+                           if changes_state(e, me, M)]
+                if changed:
+                    prob.append(('check:late:%s' % name, changed[0],
                                  'connection state is changed before the '
                                  'activity check: a refused %s() disturbs '
-                                 'the active connection' % name)
+                                 'the active connection' % name))
+                continue
+            evs = p.flat(('store', 'call'))
+            first = None
+            for e in evs:
+                if changes_state(e, me, M):
+                    first = e
+                    break
+            if first is None:
+                continue
+            proceeded += 1
+            decided = p.conds[:first.nconds]
+            a = active(decided, me)
+            if a is None:
+                kind = 'check:missing:%s' % name if active(
+                    p.conds, me) is None else 'check:late:%s' % name
+                prob.append((kind, first, '%s() changes connection state '
+                             '(%r) before it is decided that no connection '
+                             'is active' % (name, first)))
+            elif a is True:
+                prob.append(('check:ignored:%s' % name, first, '%s() goes '
+                             'on although a connection is active'
+                             % name))
+            else:
+                # the decisions were taken under the lock that also covers
+                # the change
+                idx = [i for i, (c, _, _) in enumerate(decided)
+                       if mentions_slot(c, me)]
+                if not lock_held(first.held, me, M) or not all(
+                        lock_held(p.cond_held[i], me, M) for i in idx):
+                    prob.append(('check:unlocked:%s' % name, first,
+                                 'the activity check runs outside the write '
+                                 'lock: another thread can connect in '
+                                 'between'))
+        if not refused and not prob:
+            prob.append(('check:missing:%s' % name, None, '%s() never '
+                         'refuses an active connection' % name))
+        if not proceeded:
+            raise AnalysisError('%s(): no path sets up a connection' % name,
+                                fi.node, rel(fi.path))
+        if prob:
+            seen = set()
+            for key, e, msg in prob:
+                if key in seen:
+                    continue
+                seen.add(key)
+                report.violation(R, key, fi.path, e.node if e is not None
+                                 else fi.node, fi.qualname, msg)
         else:
-            report.ok(R, '%s(): _check_connection() dominates all state '
-                      'changes' % name)
+            report.ok(R, '%s(): idle decided under the lock before any '
+                      'state change on %d path(s); active -> InvalidState'
+                      % (name, proceeded))
+
+
+def mentions_slot(c, me):
+    return any(t[0] == 'attr' and t[2] in ('networking_thread',
+                                           'new_networking_thread')
+               and struct(t[1]) == me for t in pathsum.subterms(c))
+
+
+def changes_state(e, me, M):
+    if e.kind == 'store':
+        b = e.base
+        while b[0] == 'attr':
+            b = b[1]
+        return b == me
+    if e.kind == 'call':
+        return any(t.cls is M.conn for t in (e.targets or ())) or (
+            e.fn[0] == 'ext' and e.fn[1].startswith('socket.'))
+    return False
 
 
 # ---------------------------------------------------------------------------
@@ -346,7 +428,7 @@ def self_attr_reads(fi):
     return out
 
 
-def r4(report, db, cg, M):
+def r4(report, db, cg, M, S):
     R = report.rule('R16.4', 'usable in any state: every attribute '
                     'disconnect() and its self-callees read is assigned in '
                     '__init__; socket and file object are published '
@@ -405,167 +487,153 @@ def r4(report, db, cg, M):
                              'assigned on every path of __init__' % attr)
     # publication of socket and file_object in _connect
     cn = M.conn_method('_connect')
-    gc = cfg_of(cn)
-
-    def stores_attr(n, attr):
-        a = n.ast
-        return isinstance(a, ast.Assign) and any(
-            isinstance(t, ast.Attribute) and t.attr == attr
-            and isinstance(t.value, ast.Name) and t.value.id == cn.params[0]
-            for t in a.targets)
-    live = gc.reachable_nodes()
-    ss = [n for n in live if n.ast is not None and stores_attr(n, 'socket')]
-    fs = [n for n in live if n.ast is not None
-          and stores_attr(n, 'file_object')]
-    if not ss or not fs:
+    cme = sy(cn.params[0])
+    seen_pub = 0
+    bad = None
+    for p in S.run(cn):
+        evs = p.flat(('store', 'call'))
+        si = [i for i, e in enumerate(evs) if e.kind == 'store'
+              and struct(e.base) == cme and e.attr == 'socket']
+        fi_ = [i for i, e in enumerate(evs) if e.kind == 'store'
+               and struct(e.base) == cme and e.attr == 'file_object']
+        if not si and not fi_:
+            continue
+        seen_pub += 1
+        if not si or not fi_:
+            bad = (evs[(si or fi_)[0]], 'only one of socket / file_object '
+                   'is set on the path [%s] -> %s' % (p.cond_text(),
+                                                      p.outcome[0]))
+            continue
+        lo, hi = sorted((si[0], fi_[0]))
+        between = [e for e in evs[lo + 1:hi] if e.kind == 'call']
+        if between:
+            bad = (between[0], 'self.%s is already set when `%s` can fail, '
+                   'but the other one of socket / file_object is not (or is '
+                   'the previous connection\'s): disconnect() after a '
+                   'refused connect then fails' % (
+                       evs[lo].attr, show(between[0].fn)))
+    if not seen_pub:
         raise AnalysisError('_connect: stores of socket / file_object not '
                             'found', cn.node, rel(cn.path))
-    for s in ss:
-        # from the socket store, an exceptional exit before file_object is
-        # stored leaves a non-None socket with no (or a stale) file object
-        pth = gc.exists_path(s, lambda x: x is gc.raise_exit,
-                             avoid=lambda x: x in fs)
-        own_exc = any(l == 'exc' for _, l in s.succ)
-        if pth is None and not own_exc or (pth is None and own_exc and
-                                           False):
-            report.ok(R, '_connect: no failure point between the socket '
-                      'and file_object stores')
-        elif pth is None:
-            report.ok(R, '_connect: socket store is followed by the '
-                      'file_object store without a failure point')
-        else:
-            culprit = [x for x in pth if x.ast is not None and any(
-                l == 'exc' for _, l in x.succ) and x is not s]
-            c = culprit[0] if culprit else s
-            report.violation(R, 'publication:socket-before-file', cn.path,
-                             c.ast, cn.qualname, 'self.socket is already '
-                             'set when `%s` can fail, but self.file_object '
-                             'is not (or is the previous connection\'s): '
-                             'disconnect() after a refused connect then '
-                             'fails on file_object' % ast.unparse(
-                                 c.ast).split('\n')[0][:60])
+    if bad:
+        report.violation(R, 'publication:socket-before-file', cn.path,
+                         bad[0].node, cn.qualname, bad[1])
+    else:
+        report.ok(R, '_connect: socket and file_object are stored together, '
+                  'with no failure point in between')
 
 
 # ---------------------------------------------------------------------------
-def r5(report, db, cg, M):
-    R = report.rule('R16.5', 'teardown on every exit of disconnect(): the '
-                    'flush cannot skip interrupt and close; a dead peer '
+def r5(report, db, cg, M, S):
+    R = report.rule('R16.5', 'teardown on every exit of disconnect(): '
+                    'whatever the flush does, the transport is shut down '
+                    '(both directions), closed and forgotten; a dead peer '
                     'does not make disconnect() raise')
     dc = M.conn_method('disconnect')
-    g = cfg_of(dc)
+    me = sy(dc.params[0])
     pop = M.conn_method('_pop_packet')
-    live = g.reachable_nodes()
-    flush = [n for n in live if n.ast is not None and any(
-        any(m is pop for m, _, _ in cg.callee_funcs(dc, c))
-        for c in n.calls())]
-    me = dc.params[0]
+    sock = at(me, 'socket')
+    fobj = at(me, 'file_object')
+    paths = S.run(dc)
+    report.note('paths', '%s: %d paths' % (dc.qualname, len(paths)))
+    flushes = set()
+    flush_ok = set()
+    skipped = None
+    how_bad = None
+    shut_seen = shut_caught = 0
+    n_close = 0
 
-    def sock_test(n):
-        return n.kind == 'test' and ('%s.socket is not None' % me) in \
-            ast.unparse(n.ast)
-
-    def slot_test(n):
-        return n.kind == 'test' and 'networking_thread is not None' in \
-            ast.unparse(n.ast)
-    close_entry = [n for n in live if sock_test(n) and not any(
-        x in flush for x in [n])]
-    # teardown entries are socket tests that lead to close(), not the one
-    # guarding the flush
-    def leads_to_close(n):
-        for s, l in n.succ:
-            if l != 'true':
-                continue
-            pth = g.exists_path(n, lambda x: x is g.exit or x is g.raise_exit,
-                                avoid=lambda x: x.ast is not None and any(
-                                    isinstance(c.func, ast.Attribute)
-                                    and c.func.attr in ('close', 'shutdown')
-                                    and ('socket' in ast.unparse(c.func.value)
-                                         or 'file_object' in ast.unparse(
-                                             c.func.value))
-                                    for c in x.calls()),
-                                start_labels=('true',))
-            return pth is None
-        return False
-    close_entry = [n for n in close_entry if leads_to_close(n)]
-    intr_entry = [n for n in live if slot_test(n)]
-    if not close_entry:
+    def recv_is(e, place):
+        return (e.fn[0] == 'attr' and struct(e.fn[1]) == place) or (
+            e.fn[0] == 'fn' and e.fn[2] is not None
+            and struct(e.fn[2]) == place)
+    for p in paths:
+        evs = p.flat()
+        for e in evs:
+            if e.calls(pop):
+                flushes.add(id(e.node))
+        for n in p.notes:
+            if n[0] == 'caught' and id(n[3]) in flushes and p.returns:
+                flush_ok.add(id(n[3]))
+        has_sock = t_not(none_fact(p.conds, sock))
+        shut = [e for e in evs if e.kind == 'call'
+                and e.method() == 'shutdown' and recv_is(e, sock)]
+        close = [e for e in evs if e.kind == 'call'
+                 and e.method() == 'close' and recv_is(e, sock)]
+        fclose = [e for e in evs if e.kind == 'call'
+                  and e.method() == 'close' and recv_is(e, fobj)]
+        forget = [e for e in evs if e.kind == 'store'
+                  and struct(e.base) == me and e.attr == 'socket'
+                  and e.value == ('const', None)]
+        for e in shut:
+            shut_seen += 1
+            how = e.args[-1] if e.args else None
+            if how != ('ext', 'socket.SHUT_RDWR'):
+                how_bad = (e, show(how) if how else None)
+            if any(n[0] == 'caught' and n[3] is e.node for n in p.notes) \
+                    and close:
+                shut_caught += 1
+        raised_here = p.raises and len(p.outcome) > 3 and any(
+            p.outcome[2] is e.node for e in shut + close + fclose)
+        if has_sock and not raised_here:
+            if not (close and fclose and forget and shut):
+                skipped = (p, 'close' if not close else 'file close'
+                           if not fclose else 'shutdown' if not shut
+                           else 'socket = None')
+            else:
+                n_close += 1
+                if not all(lock_held(e.held, me, M) for e in close + forget):
+                    skipped = (p, 'lock around the close')
+        if has_sock is None and (p.returns or p.raises):
+            skipped = (p, 'socket test')
+    if not flushes:
+        raise AnalysisError('disconnect: flush not found', dc.node,
+                            rel(dc.path))
+    if not n_close and skipped is None:
         report.violation(R, 'teardown:no-close', dc.path, dc.node,
                          dc.qualname, 'no `socket is not None -> close` '
                          'stage found in disconnect()')
         return
-    if not intr_entry:
-        report.violation(R, 'teardown:no-interrupt', dc.path, dc.node,
-                         dc.qualname, 'disconnect() never tells the '
-                         'networking thread to stop')
-        return
-    for f in flush:
-        for kind, entries in (('close', close_entry),
-                              ('interrupt', intr_entry)):
-            pth = g.exists_path(f, lambda x: x in (g.exit, g.raise_exit),
-                                avoid=lambda x: x in entries)
-            if pth is None:
-                report.ok(R, 'every exit after the flush at line %d passes '
-                          'the %s stage' % (f.lineno, kind))
-            else:
-                how = 'an exception in the flush' if any(
-                    x is g.raise_exit for x in pth) else 'a path'
-                report.violation(
-                    R, 'teardown:skipped:%s' % kind, dc.path, f.ast,
-                    dc.qualname, '%s leaves disconnect() without the %s '
-                    'stage: with a dead peer and queued packets the socket '
-                    'stays open / the thread is never interrupted'
-                    % (how, kind))
-        # a dead peer (I/O error while flushing) must not escape
-        io_names = ('IOError', 'OSError', 'socket.error', 'EnvironmentError',
-                    'Exception', 'BaseException', 'ConnectionError',
-                    'error')
-        handlers = [s for s, l in f.succ if l == 'exc'
-                    and s.kind == 'handler']
-        caught = any(h.ast.type is None or any(
-            nm in ast.unparse(h.ast.type).replace('(', ' ').replace(
-                ')', ' ').replace(',', ' ').split()
-            for nm in io_names) for h in handlers)
-        if caught:
-            report.ok(R, 'I/O errors of the flush are caught')
-        else:
-            report.violation(R, 'teardown:flush-raises', dc.path, f.ast,
-                             dc.qualname, 'an I/O error while flushing (peer '
-                             'already gone) propagates out of disconnect()')
-    if not flush:
-        raise AnalysisError('disconnect: flush not found', dc.node,
-                            rel(dc.path))
-    # shutdown is inside a handler for socket errors
-    for n in live:
-        for c in (n.calls() if n.ast is not None else []):
-            if isinstance(c.func, ast.Attribute) and \
-                    c.func.attr == 'shutdown':
-                how = ast.unparse(c.args[0]) if c.args else None
-                if how is not None and how.split('.')[-1] in ('SHUT_RDWR',):
-                    report.ok(R, 'shutdown(%s): a thread blocked in a read '
-                              'is woken' % how)
-                else:
-                    report.violation(R, 'teardown:shutdown-how', dc.path, c,
-                                     dc.qualname, 'shutdown(%s) does not '
-                                     'shut the read direction: a networking '
-                                     'thread blocked inside a read on this '
-                                     'socket is not woken by close() and '
-                                     'never terminates' % how)
-                hs = [s for s, l in n.succ if l == 'exc'
-                      and s.kind == 'handler']
-                if hs:
-                    report.ok(R, 'shutdown() errors are caught')
-                else:
-                    report.violation(R, 'teardown:shutdown-raises', dc.path,
-                                     c, dc.qualname, 'shutdown() on an '
-                                     'already closed peer raises out of '
-                                     'disconnect()')
+    if skipped:
+        p, what = skipped
+        report.violation(R, 'teardown:skipped:close', dc.path, dc.node,
+                         dc.qualname, 'disconnect() can end (%s, path [%s]) '
+                         'without the %s: with a dead peer and queued '
+                         'packets the socket stays open'
+                         % (p.outcome[0], p.cond_text(), what))
+    else:
+        report.ok(R, 'every exit of disconnect() with a socket passes '
+                  'shutdown, close of socket and file object, and forgets '
+                  'the socket (%d paths)' % n_close)
+    if flushes - flush_ok:
+        report.violation(R, 'teardown:flush-raises', dc.path, dc.node,
+                         dc.qualname, 'an I/O error while flushing (peer '
+                         'already gone) propagates out of disconnect()')
+    else:
+        report.ok(R, 'I/O errors of the flush are caught')
+    if how_bad:
+        report.violation(R, 'teardown:shutdown-how', dc.path, how_bad[0].node,
+                         dc.qualname, 'shutdown(%s) does not shut the read '
+                         'direction: a networking thread blocked inside a '
+                         'read on this socket is not woken by close() and '
+                         'never terminates' % how_bad[1])
+    elif shut_seen:
+        report.ok(R, 'shutdown(SHUT_RDWR): a thread blocked in a read is '
+                  'woken')
+    if shut_seen and not shut_caught:
+        report.violation(R, 'teardown:shutdown-raises', dc.path, dc.node,
+                         dc.qualname, 'shutdown() on an already closed peer '
+                         'raises out of disconnect()')
+    elif shut_seen:
+        report.ok(R, 'shutdown() errors are caught and the close goes on')
 
 
 # ---------------------------------------------------------------------------
-def r6(report, db, cg, M):
+def r6(report, db, cg, M, S):
     R = report.rule('R16.6', 'termination: every loop of the networking '
                     'thread stops when its interrupt flag is set, and '
-                    'disconnect() sets the flag of the newest thread slot')
+                    'disconnect() sets the flag of the newest thread slot '
+                    'on every exit')
     rn = M.method(M.thread, '_run')
     me = rn.params[0]
     loops = [n for n in ast.walk(rn.node) if isinstance(n, ast.While)]
@@ -584,56 +652,44 @@ def r6(report, db, cg, M):
                 'the loop `while %s` keeps running after interrupt is set'
                 % ast.unparse(lp.test))
     dc = M.conn_method('disconnect')
-    g = cfg_of(dc)
-    d = dc.params[0]
-    new_a = '%s.new_networking_thread is None' % d
-    cur_a = '%s.networking_thread is None' % d
-
-    def store_of(slot):
-        return [n for n in g.reachable_nodes() if isinstance(
-            n.ast, ast.Assign) and any(
-                isinstance(t, ast.Attribute) and t.attr == 'interrupt'
-                and isinstance(t.value, ast.Attribute)
-                and t.value.attr == slot for t in n.ast.targets)
-            and isinstance(n.ast.value, ast.Constant)
-            and n.ast.value.value is True]
-    for env, slot, label in (
-            ({new_a: False, cur_a: False}, 'new_networking_thread',
-             'a successor exists'),
-            ({new_a: False, cur_a: True}, 'new_networking_thread',
-             'only a successor exists'),
-            ({new_a: True, cur_a: False}, 'networking_thread',
-             'only the current thread exists')):
-        reach = decided_walk(g, env)
-        st = store_of(slot)
-        # exit reachable (normally) without passing the store?
-        seen = set()
-        stack = [g.entry]
-        miss = False
-        while stack:
-            n = stack.pop()
-            if n in seen or n not in reach or n in st:
-                continue
-            seen.add(n)
-            if n is g.exit:
-                miss = True
-                break
-            decided = None
-            if n.kind == 'test':
-                ats = boolfn.atoms(n.ast)
-                if ats and all(a in env for a in ats):
-                    decided = boolfn.evaluate(n.ast, env)
-            for s, l in n.succ:
-                if l == 'exc':
-                    continue
-                if decided is not None and l in ('true', 'false') and \
-                        (l == 'true') != decided:
-                    continue
-                stack.append(s)
-        if miss or not st:
-            report.violation(R, 'interrupt-target:%s' % slot, dc.path,
-                             dc.node, dc.qualname, 'when %s, disconnect() '
-                             'can return without setting %s.interrupt: that '
-                             'thread keeps running' % (label, slot))
+    d = sy(dc.params[0])
+    nt, nnt = at(d, 'networking_thread'), at(d, 'new_networking_thread')
+    miss = {}
+    okc = {}
+    for p in S.run(dc):
+        if p.raises and len(p.outcome) > 3 and not p.events:
+            continue
+        has_new = t_not(none_fact(p.conds, nnt))
+        has_cur = t_not(none_fact(p.conds, nt))
+        if has_new:
+            slot, label = nnt, 'a successor exists'
+        elif has_new is False and has_cur:
+            slot, label = nt, 'only the current thread exists'
+        elif has_new is False and has_cur is False:
+            continue
         else:
-            report.ok(R, 'when %s: %s.interrupt = True' % (label, slot))
+            miss['?'] = ('the newest thread slot is not determined on the '
+                         'path [%s]' % p.cond_text())
+            continue
+        marks = [e for e in p.flat(('store',)) if e.attr == 'interrupt'
+                 and struct(e.base) == slot and e.value == ('const', True)]
+        wrong = [e for e in p.flat(('store',)) if e.attr == 'interrupt'
+                 and struct(e.base) != slot]
+        name = slot[2]
+        if not marks:
+            miss[name] = ('when %s, disconnect() can end (%s) without '
+                          'setting %s.interrupt: that thread keeps running'
+                          % (label, p.outcome[0], name))
+        else:
+            okc[name] = label
+    for name, msg in sorted(miss.items()):
+        report.violation(R, 'interrupt-target:%s' % name, dc.path, dc.node,
+                         dc.qualname, msg)
+    for name, label in sorted(okc.items()):
+        if name not in miss:
+            report.ok(R, 'when %s: %s.interrupt = True on every exit'
+                      % (label, name))
+    if not okc and not miss:
+        report.violation(R, 'teardown:no-interrupt', dc.path, dc.node,
+                         dc.qualname, 'disconnect() never tells the '
+                         'networking thread to stop')
